@@ -50,6 +50,19 @@ def regenerate_allows(ctx):
     ctx.extra['allows_table_rows'] = out.count('(') - 2
     return True
 
+def ep_verdict(fi, fm):
+    """Spec.EntryPoints.judge on the observation (res, errs, same) against the driver's want="""
+    w, err, errs, same = fm.get('want'), fi.get('outcome') == 'err', int(fi.get('errs', '0') or 0), fi.get('same', '-')
+    if w == 'refuse' and not (err and same != '0'):
+        return 'must be refused with an error and leave the manifest as it is (got %s, manifest unchanged=%s)' % (fi.get('outcome'), same)
+    if w == 'succeed' and err:
+        return 'must succeed, an error was returned'
+    if w == 'flagged' and not (err or errs > 0):
+        return 'a requirement that cannot be resolved passed silently: no error and no resolve error in the result'
+    if w not in ('refuse', 'succeed', 'flagged'):
+        return 'driver did not judge the case'
+    return None
+
 
 def run(ctx):
     ctx.trusted = ['Lean 4.33.0 kernel', 'axioms: propext, Quot.sound, Classical.choice at most (see theorems.*.axioms)',
@@ -103,6 +116,8 @@ def run(ctx):
             return fi.get('patches', '0') != '0'
         if op == 'cf':
             return fi.get('cfg', '-') != '-'
+        if op == 'ep':
+            return True
         return r == 'ok' and fi.get('final') != case.split(' | ')[1].split(' ')[1]
 
     def oracle(case, fi, fm):
@@ -111,6 +126,9 @@ def run(ctx):
         r = fi.get('r', fi.get('_', ''))
         if r == 'panic':
             return 'the real code panicked'
+        if op == 'ep':
+            v = ep_verdict(fi, fm)
+            return ('entry point, kind %s (see Spec/EntryPoints.lean): ' % level + v) if v else None
         if fi.get('cmp') == '0':
             return ('mavenutil.CompareVersions differs in sign from the specified order on a pair of versions of this universe (Maven order, in which different '
                     'spellings of one version are equal, with the guava-flavour and commons date-version exceptions)')
@@ -144,6 +162,20 @@ def run(ctx):
                         '(the termination clause of C11; the loop models terminate: C11_terminates_partial / C11_terminates_multi_partial)')
             if r != 'ok':
                 return 'relax end to end: ' + r
+            import json as _json
+            c = _json.loads(bytes.fromhex(case.split(' | ')[0].split(' ')[2]))
+            touched = [x for x in fi.get('touched', '-').split('+') if x not in ('-', '')]
+            if c.get('Level', 0) >= 1 and 'lib' in touched:
+                return 'relax end to end: lib is configured %s, every newer lib is a major step, yet its requirement was relaxed' % ['major', 'minor', 'patch', 'none'][c['Level']]
+            if c.get('Depth', 0) == 1 and (fi.get('vulns') != '0' or fi.get('patches') != '0' or fi.get('same') != '1'):
+                return 'relax end to end: MaxDepth 1, all vulnerable packages are two edges from the root, yet vulnerabilities / patches were reported or the manifest changed'
+            if c.get('Depth', 0) == 2 and 'wrap' in touched:
+                return 'relax end to end: MaxDepth 2, the vulnerable packages are three edges away through wrap, yet wrap was relaxed'
+            if fi.get('patches') == '0' and fi.get('same') != '1':
+                return 'relax end to end: no patch reported, but the manifest on disk changed'
+        elif op == 'up' and fi.get('extra', '0') != '0':
+            return ('Update on a manifest with a local parent: an update was reported for the <parent> (its package is configured none) or for the dependency '
+                    'the manifest only inherits, or the parent pom.xml was rewritten (extra=%s)' % fi.get('extra'))
         elif op == 'up':
             if r != 'ok':
                 return 'Update on a whole pom: ' + r
@@ -217,6 +249,8 @@ def run(ctx):
             return 'mo r=%s%s' % (r, extra)
         if op == 'rl':
             return 'rl r=%s patches=%s' % (r, fi.get('patches'))
+        if op == 'ep':
+            return 'ep want=%s outcome=%s' % (fm.get('want'), fi.get('outcome'))
         if op == 'cf':
             return 'cf r=%s wf=%s entries=%s' % (r, fm.get('wf'), 'some' if fi.get('cfg', '-') != '-' else 'none')
         if op == 'up':
